@@ -102,6 +102,9 @@ func heapBoxName(sort string) string             { return "B." + sort }
 func heapSliceNameT(t types.Type) string {
 	if it, ok := t.Underlying().(*types.Interface); ok && it.NumMethods() == 0 {
 		if _, named := t.(*types.Named); !named {
+			if gWorld != nil {
+				gWorld.sliceKeyElem["S.any"] = t
+			}
 			return "S.any"
 		}
 	}
@@ -128,6 +131,8 @@ func (w *World) heapSortOfName(name string) string {
 		return "Int"
 	case name == "Bld":
 		return arraySort("Int", "String")
+	case name == "S.any":
+		return arraySort("Int", arraySort("Int", "Any"))
 	case strings.HasPrefix(name, "S."):
 		if t, ok := w.sliceKeyElem[name]; ok {
 			return arraySort("Int", arraySort("Int", w.sortOf(t)))
